@@ -165,6 +165,17 @@ def class_params(tier, seed):
 
 def obligations(tier, seed):
     obs = []
+    # room for a whole further recognition site inside the target (the 'no cut strictly inside' clause)
+    from symx import loader
+
+    st = loader.real_stack()
+    for e in (["BsaI"] if tier == "quick" else ["BsaI", "BbsI", "SapI"]):
+        g = Geometry(st.enzyme(e))
+        F = fixed_letters(generic_class(st, "module", e).structure())
+        n = F + g.L + (g.lo - g.L) + 1
+        obs.append(Ob("generic module over %s n=%d (F=%d, room for a third site in the target)" % (e, n, F), ob_class,
+                      dict(src="generic", role="module", enzyme=e, n=n), samples=3, cost=n ** 3 * 4,
+                      expect_witness=("accepted", "rejected"), group="third-site " + e))
     slack = tier_pick(tier, [1], [0, 1, 2, 3, 4])
     for params, pat, F in class_params(tier, seed):
         label = "%s.%s" % (params["kit"], params["cls"]) if params["src"] == "kit" else \
